@@ -1636,13 +1636,6 @@ func lqRunHist(id string, next lqGenFn) Case {
 				if pre.Accts[op.To] != nil && op.To != op.From {
 					tags["liq:to-vesting-account"] = true
 				}
-				if x := op.x(); x.BitLen() > 100 {
-					tags["amt-scale:2^120"] = true
-				} else if x.BitLen() > 40 {
-					tags["amt-scale:2^64"] = true
-				} else {
-					tags["amt-scale:2^20"] = true
-				}
 			case "xfer":
 				nMove++
 				if op.From == op.To {
@@ -1705,6 +1698,23 @@ func lqRunHist(id string, next lqGenFn) Case {
 		}
 		pre = post
 	}
+	maxBits := 0
+	for _, op := range in.Ops {
+		for _, p := range op.Lock {
+			if p.A.BitLen() > maxBits {
+				maxBits = p.A.BitLen()
+			}
+		}
+	}
+	switch {
+	case maxBits > 100:
+		tags["amt-scale:2^120"] = true
+	case maxBits > 40:
+		tags["amt-scale:2^64"] = true
+	default:
+		tags["amt-scale:2^20"] = true
+	}
+	tags[fmt.Sprintf("liq-ok=%d", nLiq)] = true
 	kb, _ := json.Marshal(in.Ops)
 	return Case{
 		ID: id, Kind: "hist", Input: in, Obs: obsAll,
@@ -1885,35 +1895,40 @@ func (g *lqGen) next(i int, s *lqSnap) (lqOp, bool) {
 	if !g.enabled && r.Chance(45) {
 		k = 96 // switch the module on again
 	}
+	live, free := []int{}, 0 // accounts with coins that can be liquidated now / without vesting record
+	for a := 0; a < lqNA; a++ {
+		if s.Accts[a] == nil {
+			free++
+		} else if lqLockedAt(s.Accts[a], g.cur).Sign() > 0 {
+			live = append(live, a)
+		}
+	}
 	var wLiq, wRedeem, wXfer, wMk, wFund int
-	if len(holds) == 0 {
+	switch {
+	case len(holds) == 0 && len(live) > 0:
 		wLiq, wRedeem, wXfer, wMk, wFund = 72, 4, 4, 10, 5
-	} else {
-		wLiq, wRedeem, wXfer, wMk, wFund = 22, 38, 22, 8, 4
+	case len(holds) == 0:
+		wLiq, wRedeem, wXfer, wMk, wFund = 25, 4, 4, 55, 6
+	case len(live) > 0:
+		wLiq, wRedeem, wXfer, wMk, wFund = 24, 37, 22, 7, 4
+	default:
+		wLiq, wRedeem, wXfer, wMk, wFund = 8, 44, 26, 12, 4
+	}
+	if free == 0 && wMk > 8 {
+		wLiq, wMk = wLiq+wMk-8, 8
 	}
 	switch {
 	case k < wLiq:
-		cands := []int{}
-		for a := 0; a < lqNA; a++ {
-			if s.Accts[a] != nil {
-				cands = append(cands, a)
-			}
-		}
 		from := r.Intn(lqNA)
-		if len(cands) > 0 && r.Chance(88) {
-			from = cands[r.Intn(len(cands))]
+		if len(live) > 0 && r.Chance(90) {
+			from = live[r.Intn(len(live))]
 		}
 		var t int64
 		if v := s.Accts[from]; v != nil {
+			t0 := g.cur
 			t = g.pickTime(v.Start, v.Lock)
-			if lqLockedAt(v, t).Sign() == 0 && r.Chance(70) { // aim inside the lockup
-				t = g.cur
-				if lqLockedAt(v, t).Sign() == 0 {
-					t = v.Start + 1 + int64(r.Intn(int(lqTotalLen(v.Lock)+1)))
-					if t < lqT0 {
-						t = lqT0
-					}
-				}
+			if lqLockedAt(v, t).Sign() == 0 && lqLockedAt(v, t0).Sign() > 0 && r.Chance(85) {
+				t, g.cur = t0, t0 // stay inside the lockup
 			}
 		} else {
 			t = g.pickTime(g.cur, nil)
